@@ -34,6 +34,20 @@ def _probe_parser():
     return m.parser
 
 
+def _show(line):
+    """a protocol line / answer with its code-point fields decoded (never raises)"""
+    out = []
+    for f in line.split('\t'):
+        parts = []
+        for g in f.split(';'):
+            try:
+                parts.append(common.uncps(g) if g and g[0].isdigit() and ' ' in g or g.isdigit() and int(g) > 31 else g)
+            except Exception:
+                parts.append(g)
+        out.append(';'.join(parts))
+    return ' | '.join(out)
+
+
 def unit_level(ctx):
     from recognizers_date_time.date_time.utilities import DateTimeFormatUtil, DateTimeResolutionResult
     from recognizers_date_time.date_time.parsers import DateTimeParseResult
@@ -106,8 +120,7 @@ def unit_level(ctx):
     ctx.count('unit: format/determine/resolution', len(lines))
     for l, a, b in zip(lines, expect, model):
         if a != b:
-            ctx.report('correspondence', l.split('\t')[0], '%r: implementation %r, model %r' % (
-                l, a if a.startswith('err') else common.uncps(a.split(';')[0]), common.uncps(b.split(';')[0])),
+            ctx.report('correspondence', l.split('\t')[0], '%r: implementation %r, model %r' % (_show(l), _show(a), _show(b)),
                 failing_input={'op': l, 'implementation': a, 'model': b}, property_fails=False)
 
 
@@ -126,17 +139,19 @@ def judge(ctx, jobs, results, family):
             ents.append(e)
             meta.append(j)
     ctx.extra['entities_with_resolution_none'] = ctx.extra.get('entities_with_resolution_none', 0) + none_res
-    verdicts = dtcorpus.evaluate_wf(ents)
+    verdicts = dtcorpus.evaluate_wf(ents, with_sentinel=True)
     for j, e, (tn_ok, vs) in zip(meta, ents, verdicts):
         ctx.nontriv((j[0], j[1], str(j[2])))
         problems = []
         if not tn_ok:
             problems.append('type-name')
-        for v, (shape, definite, _triple) in zip(e['values'], vs):
+        for v, (shape, definite, _triple, sentinel) in zip(e['values'], vs):
             if not shape:
                 problems.append('shape')
             if not definite:
                 problems.append('definite')
+            if not sentinel:
+                problems.append('sentinel')
         for kind in sorted(set(problems)):
             sig = '%s:%s' % (kind, dtcorpus.input_key(j[0], j[1]))
             ctx.report('property', sig, '%s %r (reference %s): entity %r type %s values %r violates %s' % (
